@@ -468,6 +468,20 @@ def leaf_values(an, v, depth=0, seen=None):
     return [v]
 
 
+def contains_deep(an, v, pred, depth=0):
+    """pred holds of some value inside v, looking through joins, `?` and projections of aggregates at any depth
+    (a field of a returned struct that is a component of a pair a helper returned, ...)"""
+    if depth > 6 or not isinstance(v, tuple) or not v:
+        return False
+    if contains_value(v, pred):
+        return True
+    for x in find_values(v, lambda y: y[0] in ("proj", "phi")):
+        for l in leaf_values(an, x):
+            if l != x and contains_deep(an, l, pred, depth + 1):
+                return True
+    return False
+
+
 def find_values(v, pred):
     hit = []
 
@@ -520,7 +534,26 @@ def deep_values(an, v, depth=3):
     return out
 
 
-def eval_expr(v, is_x, x):
+def const_range(an, v):
+    """(lo, hi inclusive) of a range value built from constants (through references and promoted constants)"""
+    if not isinstance(v, tuple) or not v:
+        return None
+    if v[0] == "promoted" and an is not None:
+        v = an.promoted_pointee(v) or v
+    if v[0] in ("ref", "byref"):
+        return const_range(an, v[1]) if isinstance(v[1], tuple) else None
+    if v[0] == "init" and v[1][0] == "deref":
+        return const_range(an, v[1][1])
+    if v[0] == "agg" and isinstance(v[1], str) and v[1].endswith(":Range") and len(v[2]) == 2 and all(x[0] == "const" for x in v[2]):
+        return (v[2][0][1], v[2][1][1] - 1)
+    if v[0] == "agg" and "RangeInclusive" in str(v[1]) and len(v[2]) >= 2 and v[2][0][0] == "const" and v[2][1][0] == "const":
+        return (v[2][0][1], v[2][1][1])
+    if v[0] == "call" and "range" in v[1] and v[1].endswith("::new") and len(v[2]) == 2 and all(x[0] == "const" for x in v[2]):
+        return (v[2][0][1], v[2][1][1])
+    return None
+
+
+def eval_expr(v, is_x, x, an=None):
     """numeric value of a symbolic expression when the values satisfying is_x are x (None if it depends on anything else);
     Some(e) / None aggregates evaluate to ("Some", value) / ("None",)"""
     if not isinstance(v, tuple) or not v:
@@ -528,15 +561,42 @@ def eval_expr(v, is_x, x):
     if is_x(v):
         return x
     t = v[0]
+    if t in ("byref", "ref") and isinstance(v[1], tuple) and v[1] and isinstance(v[1][0], str):
+        r = eval_expr(v[1], is_x, x, an)
+        if r is not None:
+            return r
+    if t == "call" and v[1].rsplit("::", 1)[-1] == "contains" and len(v[2]) == 2:
+        r = const_range(an, v[2][0])
+        e = eval_expr(v[2][1], is_x, x, an)
+        if r is not None and e is not None and not isinstance(e, tuple):
+            return r[0] <= e <= r[1]
+        return None
+    if t == "call" and v[1].rsplit("::", 1)[-1] in ("is_ascii_uppercase", "is_ascii_lowercase", "is_ascii_digit", "is_ascii_control",
+                                                    "is_ascii_alphabetic", "is_ascii_alphanumeric", "is_ascii_hexdigit",
+                                                    "is_ascii_graphic", "is_ascii_whitespace", "is_ascii_punctuation", "is_ascii") and len(v[2]) == 1:
+        e = eval_expr(v[2][0], is_x, x, an)
+        if e is None or isinstance(e, tuple) or not (0 <= int(e) < 0x110000):
+            return None
+        e = int(e)
+        if e > 0x7F:
+            return False
+        ch = chr(e)
+        import string as _st
+        return {"is_ascii_uppercase": ch in _st.ascii_uppercase, "is_ascii_lowercase": ch in _st.ascii_lowercase,
+                "is_ascii_digit": ch in _st.digits, "is_ascii_control": e < 0x20 or e == 0x7F,
+                "is_ascii_alphabetic": ch in _st.ascii_letters, "is_ascii_alphanumeric": ch in _st.ascii_letters + _st.digits,
+                "is_ascii_hexdigit": ch in _st.hexdigits, "is_ascii_graphic": 0x21 <= e <= 0x7E,
+                "is_ascii_whitespace": e in (0x20, 0x09, 0x0A, 0x0C, 0x0D), "is_ascii_punctuation": ch in _st.punctuation,
+                "is_ascii": True}[v[1].rsplit("::", 1)[-1]]
     if t == "const":
         return v[1]
     if t == "cast":
-        return eval_expr(v[-1], is_x, x)
+        return eval_expr(v[-1], is_x, x, an)
     if t == "not":
-        r = eval_expr(v[1], is_x, x)
+        r = eval_expr(v[1], is_x, x, an)
         return None if r is None else (not r)
     if t == "bin":
-        a, b = eval_expr(v[2], is_x, x), eval_expr(v[3], is_x, x)
+        a, b = eval_expr(v[2], is_x, x, an), eval_expr(v[3], is_x, x, an)
         if a is None or b is None or isinstance(a, tuple) or isinstance(b, tuple):
             return None
         try:
@@ -550,15 +610,15 @@ def eval_expr(v, is_x, x):
         if v[1].endswith(":None"):
             return ("None",)
         if v[1].endswith(":Some") and v[2]:
-            r = eval_expr(v[2][0], is_x, x)
+            r = eval_expr(v[2][0], is_x, x, an)
             return None if r is None else ("Some", r)
         if v[1].endswith(":Err"):
             return ("Err",)
         if v[1].endswith(":Ok") and v[2]:
-            r = eval_expr(v[2][0], is_x, x)
+            r = eval_expr(v[2][0], is_x, x, an)
             return None if r is None else ("Ok", r)
     if t == "call" and v[1].endswith("from_residual"):
-        return ("Err",)
+        return ("None",) if "core::option::" in v[1] else ("Err",)
     return None
 
 
@@ -583,14 +643,14 @@ def eval_fn_scalar_all(S_, fn, is_x, x, limit=4000):
             v = an.read(st, ("local", 0))
             if contains_value(v, lambda y: y[0] == "phi"):
                 v = S_.value_on_path(fn, list(path), v)
-            out.add(eval_expr(v, is_x, x))
+            out.add(eval_expr(v, is_x, x, an))
             continue
         outs = cfg.out_edges[node]
         if info["kind"] == "switch":
             D = info["discr"]
             if contains_value(D, lambda y: y[0] == "phi"):
                 D = S_.value_on_path(fn, list(path), D)
-            val = eval_expr(D, is_x, x)
+            val = eval_expr(D, is_x, x, an)
             if val is not None and not isinstance(val, tuple):
                 val = int(val)
                 sel = [e for e in outs if e.label[0] == "switch" and e.label[1] == val] or \
@@ -619,12 +679,12 @@ def eval_fn_scalar(S_, fn, is_x, x, limit=400):
             v = an.read(st, ("local", 0))
             if contains_value(v, lambda y: y[0] == "phi"):
                 v = S_.value_on_path(fn, path, v)
-            return eval_expr(v, is_x, x)
+            return eval_expr(v, is_x, x, an)
         if info["kind"] == "switch":
             D = info["discr"]
             if contains_value(D, lambda y: y[0] == "phi"):
                 D = S_.value_on_path(fn, path, D)
-            val = eval_expr(D, is_x, x)
+            val = eval_expr(D, is_x, x, an)
             if val is None or isinstance(val, tuple):
                 return None
             val = int(val)
